@@ -4,7 +4,7 @@ COMMON = "Trusted: the harness's mini API server and event loop reproduce what t
 
 TEXT = {
     "C20": {
-        "level": "Exploration of schedules under the race detector: generated event batches are delivered concurrently, one goroutine per reconciler (service events plus the re-syncs other handlers request, pool / configuration events, node events; in a third of the controller cases two service workers, the events of one service staying on one of them), through the real k8s.Listener to the real controller and speaker, while fetcher goroutines query pool counters, layer-2 status (reading the advertisements as the status reconciler does), per-service BGP peers and the ARP decision; any race report, panic or deadlock is a violation, and the final statuses / allocator memory / counters / announcements / routes must equal those of a serial replay of the same handlers in the order in which they took effect (logged inside the Listener's critical section).",
+        "level": "Exploration of schedules under the race detector: generated event batches are delivered concurrently, one goroutine per reconciler (service events plus the re-syncs other handlers request, pool / configuration events, node events; in a third of the controller cases two service workers, the events of one service staying on one of them), through the handlers the real k8s.New hands to the reconcilers (its manager is built without an API server and never started; the handlers are the Listener methods unless New is changed) to the real controller and speaker, while fetcher goroutines query pool counters, layer-2 status (reading the advertisements as the status reconciler does), per-service BGP peers and the ARP decision; any race report, panic or deadlock is a violation, and the final statuses / allocator memory / counters / announcements / routes must equal those of a serial replay of the same handlers in the order in which they took effect (logged inside the Listener's critical section).",
         "design_ref": "DESIGN.md section 21",
         "note": "Interleavings are produced by the Go scheduler (yields generated), not enumerated; the race detector extends each run to executions with the same happens-before graph. Workloads are restricted to those whose result is a function of the handler order. A race report fails the shard, not a single case: its replay file re-runs the shard's seed.",
         "technique": "property-based generation of concurrent workloads + race detector + serial-replay differential (rapid, -race)",
@@ -16,13 +16,13 @@ TEXT = {
         "technique": "stateful property-based testing with fault injection against a scripted peer (rapid, -race; rapid + testing/synctest on a virtual clock)",
     },
     "C19": {
-        "level": "Exploration on a virtual clock: the real debouncer of internal/bgp/frr/config.go and the frr-k8s variant run inside testing/synctest bubbles (go1.26.8); submissions (new, identical, re-apply, older) at inter-arrival times chosen around the debounce and retry intervals, finite failure patterns and a slow reload action are generated; the observed apply sequence (time, configuration, outcome) must equal that of an independent event-driven reference model, submitters must never block longer than the action, and the clauses of the statement are re-checked directly. Two further engines put the real reload action (template, file, scripted reloader signal) and the whole real FRR sessionManager (NewSession / Set / Close / SyncBFDProfiles / SyncExtraInfo) in front of the real debouncer; the last applied rendering must equal what a fresh manager renders for the final state.",
+        "level": "Exploration on a virtual clock: the real debouncer of internal/bgp/frr/config.go and the frr-k8s variant run inside testing/synctest bubbles (go1.26.8); submissions (new, identical, re-apply, older) at inter-arrival times chosen around the debounce and retry intervals, finite failure patterns and a slow reload action are generated; the observed apply sequence (time, configuration, outcome) must equal that of an independent event-driven reference model, submitters must never block longer than the action (or, for the frr-k8s variant, than a consumer that is busy or starts late when a window expires), and the clauses of the statement are re-checked directly. Two further engines put the real reload action (template, file, scripted reloader signal) and the whole real FRR sessionManager (NewSession / Set / Close / SyncBFDProfiles / SyncExtraInfo) in front of the real debouncer; the last applied rendering must equal what a fresh manager renders for the final state.",
         "design_ref": "DESIGN.md section 20",
         "note": "Trusted: go1.26.8's testing/synctest and the assumption that the code under test (time, channels, select) behaves under go1.26.8 as under go1.23.6; simultaneous expiry and submission may resolve either way.",
         "technique": "property-based testing on a virtual clock against a reference model (rapid + testing/synctest)",
     },
     "C13": {
-        "level": "Exploration: (1) generated histories of announce / re-announce with another interface set / withdraw / ARP packets (request, reply or another ARP-family opcode x destination x target x interface) / replay of the unsolicited-announcement queue, against the real Announce and real arpResponders over an in-memory packet connection, judged by a reference model after every operation (reply iff announced and covered, reference counts, gratuitous frames); (2) concurrent runs under the race detector: requester goroutines against the real responder loop while an updater toggles and re-scopes a co-tenant; (3) a placed interleaving: while the real gratuitous() writes its k-th frame the holders of the address are withdrawn on another goroutine; once the withdrawal of the last holder has returned no further unsolicited frame may be written.",
+        "level": "Exploration: (1) generated histories of announce / re-announce with another interface set / withdraw / ARP packets (request, reply or another ARP-family opcode x destination x target x interface) / replay of the unsolicited-announcement queue, against the real Announce and real arpResponders over an in-memory packet connection, judged by a reference model after every operation (reply iff announced and covered, reference counts, gratuitous frames); (2) concurrent runs under the race detector: requester goroutines against the real responder loop while an updater toggles and re-scopes a co-tenant; (3) a placed interleaving: while the real gratuitous() writes its k-th frame the holders of the address are withdrawn on another goroutine; once the withdrawal of the last holder has returned no further unsolicited frame may be written; (4) generated speaker histories: what the real announcer holds (i.e. answers for) must equal what freshly started speakers hold for the final state.",
         "design_ref": "DESIGN.md section 14",
         "note": "Trusted: the in-memory PacketConn and the ethernet/arp library's decoder. NOT reached: the NDP packet path (ndp.Conn needs a raw ICMPv6 socket); it shares shouldAnnounce and the reference counting, which are covered. Interleavings of the concurrent engine are sampled by the Go scheduler.",
         "technique": "stateful property-based testing against a reference model + race-detector runs of generated concurrent workloads (rapid, -race)",
@@ -90,12 +90,12 @@ TEXT = {
         "technique": "stateful property-based testing with fault injection (crash points, failing writes, delivery orders) against a recorded-status model (rapid)",
     },
     "C07": {
-        "level": "Exploration: controller histories to quiescence; for every LoadBalancer service left without address an independent search over the CRs and the recorded statuses (explicit IPs, requested pool, pinned then unpinned auto-assign pools, family policy, free-or-shareable addresses of the tiny pools, enumerated exactly) decides whether an admissible assignment exists.",
+        "level": "Exploration: controller histories to quiescence; for every LoadBalancer service left without address an independent search over the CRs and the recorded statuses (explicit IPs, requested pool, pinned then unpinned auto-assign pools, family policy, free-or-shareable addresses of the tiny pools, enumerated exactly) decides whether an admissible assignment exists. The histories contain finite sequences of failing status writes and reads, API-server status resets on type changes and ipMode defaulting.",
         "design_ref": "DESIGN.md section 8", "note": COMMON + " 'Shareable' is read strictly (both Cluster, or both Local with identical selectors) so that the oracle never demands a sharing the implementation may legitimately refuse.",
         "technique": "stateful property-based testing against an independent admissibility search (rapid)",
     },
     "C11": {
-        "level": "Exploration: (a) allocator API histories: after every call the internal bookkeeping maps must be exactly what the surviving assignments of the reference model imply, CountersForPool must equal exact big-integer counts of usable/used addresses (saturating), and every address released by the call must be assignable at once to a probe service; (b) controller histories: at every quiescence memory and counters equal the statuses.",
+        "level": "Exploration: (a) allocator API histories: after every call the internal bookkeeping maps must be exactly what the surviving assignments of the reference model imply, CountersForPool must equal exact big-integer counts of usable/used addresses (saturating), and every address released by the call must be assignable at once to a probe service; (b) controller histories: at every quiescence memory and counters equal the statuses. The controller histories contain failing status writes and reads, and the starvation search of C07 runs at every quiescence as well (a given-up address must be available to others).",
         "design_ref": "DESIGN.md section 12", "note": COMMON,
         "technique": "stateful property-based testing: model-derived bookkeeping differential + exact counting oracle + reuse probes (rapid)",
     },
@@ -106,7 +106,7 @@ TEXT = {
         "technique": "property-based testing: generated configurations vs an independent closed-form specification (rapid)",
     },
     "C18": {
-        "level": "Exploration: generated cluster snapshots (valid and deliberately invalid, >=3 objects per kind, several pools pinned to one namespace) are converted by the real toConfig for the original order, 1..4 random permutations of every listed kind, and 1..3 repetitions (the first on the very same in-memory snapshot, the others on fresh copies); selectors include multi-valued match expressions; a second engine drives the real Config/Pool reconcilers twice over one store; results are compared with reflect.DeepEqual as the reconcilers do; acceptance must agree as well.",
+        "level": "Exploration: generated cluster snapshots (valid and deliberately invalid, >=3 objects per kind, several pools pinned to one namespace) are converted by the real toConfig for the original order, 1..4 random permutations of every listed kind, and 1..3 repetitions (the first on the very same in-memory snapshot, the others on fresh copies); selectors include multi-valued match expressions; a second engine drives the real Config/Pool reconcilers twice over one store; two more put the real controller behind the real PoolReconciler and the real speaker behind the real ConfigReconciler and, at every quiescence of a generated history, reconcile the unchanged store once more - the configuration must not be delivered again (nothing a consumer does with the configuration it was given may make the next computation look different); results are compared with reflect.DeepEqual as the reconcilers do; acceptance must agree as well.",
         "design_ref": "DESIGN.md section 19",
         "note": "Trusted: reflect.DeepEqual is the reconcilers' notion of 'unchanged'.",
         "technique": "property-based testing: metamorphic relation under permutation and repetition (rapid)",
